@@ -13,6 +13,8 @@ THEOREMS = [
     "TornadoModel.C06.refines_multimap",
     "TornadoModel.C06.present_deletable",
     "TornadoModel.C06.deleted_absent",
+    "TornadoModel.C06.copy_equal",
+    "TornadoModel.C06.parse_str_roundtrip",
 ]
 TRUSTED = [
     "str.capitalize/split/join/strip/find and dict insertion order as modelled in C06/Model.lean (ASCII names)",
@@ -29,7 +31,7 @@ CLAUSES = {
     "behaves like an insertion-ordered multimap keyed by case-insensitive name": "refines_multimap + normalize_eq_iff_lower_eq",
     "reading a name returns its values joined by commas": "refines_multimap (Spec.get) + cache_sound_run",
     "any name reported present can be deleted": "present_deletable",
-    "copies are independent": "copy_abs (content) + tie only (aliasing)",
+    "copies are independent": "copy_equal (same entries) + tie only (aliasing between the two objects)",
     "serializing and parsing back yields an equal map": "parse_str_roundtrip",
 }
 PARALLEL = True
